@@ -82,6 +82,11 @@ CHECKS["C09"] = ("§5 C09", "The real TaskHandler.submit_task (with its completi
     "from the current source and run as threads (application thread + 2 pool workers on a simulated FIFO executor) under a context-bounded scheduler whose pre-emption point "
     "is a SYMBOLIC step index (the solver partitions it over the steps actually taken): every accepted task runs exactly once on a worker, failures are contained, flush "
     "returns normally only after every earlier task finished, submissions after flush are refused visibly, nothing stays pending.")
+CHECKS["C12"] = ("§5 C12", "LongPoll.poll, TracepointConfigService (update_new_config, __trigger_update, update_listeners, add_custom, remove_custom) and "
+    "TaskHandler.submit_task statement-stepped from the current source and run as driver thread + 2 pool workers under a context-bounded scheduler with a SYMBOLIC "
+    "pre-emption step: for histories of 2-3 (thorough 3-4) operations over UPDATE x3 / NO_CHANGE / failing / unintelligible poll, register, unregister, at quiescence the "
+    "installed set is the last UPDATE plus live registrations and the next poll reports the last UPDATE's hash. The out-of-order application of two in-flight updates is a "
+    "recorded finding, excluded by predicate.")
 PENDING = {}
 
 def main():
